@@ -116,6 +116,10 @@ def event_checks(cf, P, trace, step, sid, want=None):
              lambda: f"chk_rebuild {P} ({prec})%Z {step['reb_pre_nE']}%nat {rpx()} "
                      f"{trackers_expr(cf, step['reb_pre'])} {trackers_expr(cf, step['reb_post'])} "
                      f"{step['reb_post_nE']}%nat")
+        if "dist_post" in step and "ord_pre" in step:
+            emit(["reb.carry"],
+                 lambda: "[" + f"chk_carry {P} ({prec})%Z {step['reb_pre_nE']}%nat {rpx()} {trackers_expr(cf, step['reb_pre'])} "
+                         f"{cf.mat(step['dist_post']['dem'])} {cf.mat(step['ord_pre']['dem'])}" + "]")
     if step.get("rec_pre") and step.get("rec_post") is not None:
         orac = step.get("rec_oracle")
         if orac and any(o and o.get("error") for o in orac):
